@@ -191,7 +191,12 @@ def rand_ops(rng, mode, force=None):
             ops.append(("r", bits(rng.choice([0.75, 2.0]))))
     if want[1]:
         for _ in range(rng.choice([1, 1, 2, 3, 5])):
-            if rng.random() < 0.6:
+            prev = [o for o in ops if o[0] in "tv"]
+            if prev and rng.random() < 0.15:
+                ops.append(rng.choice(prev))              # the very same tag again: it must appear again
+            elif prev and rng.random() < 0.1 and prev[-1][0] == "t":
+                ops.append(("t", prev[-1][1], rand_str(rng, mode)))     # same key, other value
+            elif rng.random() < 0.6:
                 ops.append(("t", rand_str(rng, mode), rand_str(rng, mode)))
             else:
                 ops.append(("v", rand_str(rng, mode)))
@@ -227,7 +232,8 @@ def dtags_token(dtags):
 
 
 def script_token(script):
-    return ",".join("a" if o is None else "r%d.%d" % o for o in script) or "-"
+    """None = accept (Ok(len)); ("a", n) = accept, answering Ok(n) for any n; (k, id) = refuse"""
+    return ",".join("a" if o is None else ("a%d" % o[1]) if o[0] == "a" else "r%d.%d" % o for o in script) or "-"
 
 
 class Case:
@@ -374,7 +380,12 @@ def judge_call(case, call, outcome, obs, ftext):
     bad = []
     if ret == "panic":
         return [("C03", "the call panicked"), ("C01", "the call panicked")]
-    em = [] if emitted == "~" else [bytes.fromhex(x).decode() if x != "_" else "" for x in emitted.split("+")]
+    raw = [] if emitted == "~" else emitted.split("+")
+    if "F" in raw:
+        # the recording sink's flush() ran: a metric call hands the sink one string and does nothing else to it
+        return [(p, "the call invoked flush() on the sink (sink saw %s)" % "+".join("flush" if x == "F" else "emit" for x in raw))
+                for p in ("C03", "C01")]
+    em = [bytes.fromhex(x).decode() if x != "_" else "" for x in raw]
     hd = [] if handled == "~" else handled.split("+")
     if sec[1] is None:
         # rejected value: nothing sent, invalid-input error
@@ -503,6 +514,8 @@ def gen_random(rng, n, mode):
     for _ in range(n):
         ndt = rng.choice([0, 0, 1, 2, 3])
         dt = [((rand_str(rng, mode) if rng.random() < 0.6 else None), rand_str(rng, mode)) for _ in range(ndt)]
+        if dt and rng.random() < 0.2:
+            dt.append(rng.choice(dt))                     # a default tag configured twice
         dc = rand_str(rng, mode) if rng.random() < 0.3 else None
         calls = []
         ncalls = rng.choice([1, 1, 2, 3, 5])
@@ -511,9 +524,14 @@ def gen_random(rng, n, mode):
             kind, ty = rng.choice(ENTRIES + EXTRA)
             form = rng.choice("TTPQQ")
             ops = [] if form == "P" else rand_ops(rng, mode)
+            if ops is not None and form != "P" and dt and rng.random() < 0.15:
+                k, v = rng.choice(dt)
+                ops.insert(rng.randrange(len(ops) + 1), ("t", k, v) if k is not None else ("v", v))   # a default tag repeated per call
             calls.append((form, kind, ty, mk_value(rng, ty), rand_str(rng, mode, 1 if mode == "clean" else 0), ops))
         for _ in range(rng.randint(0, ncalls)):
-            script.append(None if rng.random() < 0.5 else (rng.randint(0, 11), rng.randint(1, 99)))
+            r = rng.random()
+            script.append(None if r < 0.4 else ("a", rng.choice([0, 1, 2, 7, 10 ** 6, 2 ** 63])) if r < 0.55
+                          else (rng.randint(0, 11), rng.randint(1, 99)))
         out.append(Case(rand_prefix(rng, mode), dt, dc, script, calls, from_sink=rng.random() < 0.5))
     return out
 
@@ -527,8 +545,9 @@ def gen_scripts(rng):
     for n in range(1, 5):
         for forms in itertools.product("TPQ", repeat=n) if n <= 2 else [tuple(rng.choice("TPQ") for _ in range(n)) for _ in range(12)]:
             for vals in itertools.product([True, False], repeat=n):
-                for sc in itertools.product([None, "r"], repeat=n):
-                    script = [None if s is None else (rng.randint(0, 11), 10 + i) for i, s in enumerate(sc)]
+                for sc in itertools.product([None, "r", "n"] if n <= 2 else [None, "r"], repeat=n):
+                    script = [None if s is None else ("a", rng.choice([0, 1, 2, 3, 10 ** 9])) if s == "n"
+                              else (rng.randint(0, 11), 10 + i) for i, s in enumerate(sc)]
                     calls = []
                     for f, ok in zip(forms, vals):
                         k, ty, v = valid if ok else rejected
@@ -626,6 +645,8 @@ def run_wire_check(prop, tier, seed):
             outcome = None
             if not rejected and script:
                 outcome = script.pop(0)
+                if outcome is not None and outcome[0] == "a":
+                    outcome = None                     # accepted, whatever count the sink answered
             if rejected:
                 dist["rejected"] += 1
             if outcome is not None:
